@@ -288,6 +288,48 @@ for _n in (0, 1, 2):
     _mkdef(_n)
 
 
+# ... with `allow_false: true` only FALSE is let through: nil and the empty values are still replaced
+
+REPLAY_ALLOW_FALSE = r'''
+def run(m):
+    from liquid import Environment
+    env = Environment()
+    out = env.from_string("{{ f | default: 'd', allow_false: true }}|{{ n | default: 'd', allow_false: true }}|{{ s | default: 'd', allow_false: true }}|{{ l | default: 'd', allow_false: true }}|{{ h | default: 'd', allow_false: true }}|{{ z | default: 'd', allow_false: true }}").render(f=False, n=None, s="", l=[], h={}, z=0)
+    return {"violated": out != "false|d|d|d|d|0", "observed": out, "witness": "allow_false-lets-empty-values-through"}
+'''
+
+
+@contract(f"{MISC}:default", prop="C25", name="default[scalar value, allow_false: true]")
+def default_scalar_allow_false(c):
+    std_globals(c)
+    v, d = c.any("val"), c.any("default")
+    c.requires(z3.Not(z3.Or(U.is_ref(v.t), U.is_flt(v.t))))
+    c.call(v, d, allow_false=VBool(z3.BoolVal(True)))
+    replaced = z3.Or(U.is_none(v.t), z3.And(U.is_str(v.t), L(U.s(v.t)) == 0))
+    c.ensures("false-passes-nil-and-the-empty-string-are-still-replaced", lambda r: box(r.value) == z3.If(replaced, d.t, v.t))
+    c.raises()
+    c.replay("code", code=REPLAY_ALLOW_FALSE)
+
+
+@contract(f"{MISC}:default", prop="C25", name="default[empty array or hash, allow_false: true]")
+def default_empty_allow_false(c):
+    std_globals(c)
+    d = c.any("default")
+    kind = c.bool("is_hash")
+
+    def entry(eng, cc, func):
+        outs = []
+        for s, k in eng.branch(cc.st, kind.t):
+            left = s.alloc(HDict(items={})) if k else s.alloc(HList(items=[]))
+            outs.extend(eng.run(func, s, [left, d], {"allow_false": VBool(z3.BoolVal(True))}))
+        return outs
+    c.entry = entry
+    c.ensures("an-empty-array-or-hash-is-replaced-by-the-default", lambda r: box(r.value) == d.t)
+    c.raises()
+    c.crosscheck(off=True)
+    c.replay("code", code=REPLAY_ALLOW_FALSE)
+
+
 REPLAY_ARRAY = r'''
 def run(m):
     from liquid import Environment
